@@ -21,8 +21,10 @@ func (c verifRDLUDP) Deliver(p []byte) {
 	ch.userData = append([]byte{}, p...)
 	c.onInboundChunk(ch)
 }
-func (c verifRDLUDP) Poke()  {}
-func (c verifRDLUDP) Close() { _ = c.UDPConn.Close() }
+func (c verifRDLUDP) Poke()                {}
+func (c verifRDLUDP) Close()               { _ = c.UDPConn.Close() }
+func (c verifRDLUDP) CloseKeepsData() bool { return true }
+
 func (c verifRDLUDP) Classify(err error) string {
 	var ne interface{ Timeout() bool }
 	switch {
